@@ -77,7 +77,7 @@ def check(run):
     wits, stats, cstats, srcs = [], {}, None, []
     try:
         import genprog
-        wits, stats, cstats, srcs = semcheck.run_semantic_check(run, "C09", 160, 4000, with_corpus=False, fail_rate=0.08, depth_choices=(2, 3, 3), extra_sources=genprog.effect_position_programs() + (lambda r_: [genprog.discard_program(r_) for _ in range(50 if run.tier == "quick" else 1000)])(run.sub_rng("C09-discard")))
+        wits, stats, cstats, srcs = semcheck.run_semantic_check(run, "C09", 160, 4000, with_corpus=False, fail_rate=0.08, depth_choices=(2, 3, 3), extra_sources=__import__("matrixgen").sources(run, "c09", subset="effect") + genprog.effect_position_programs() + (lambda r_: [genprog.discard_program(r_) for _ in range(50 if run.tier == "quick" else 1000)])(run.sub_rng("C09-discard")))
     except Broken as b:
         broken.append(b)
     astats = {}
